@@ -468,7 +468,8 @@ def ln1(model):
                    'computation', floor=3)
     funcs = ['tex2txt.get_line_starts', 'tex2txt.translate_numbers', 'shell.genhtml.generate_html',
              'shell.genhtml.add_line_numbers', 'shell.gentext.output_text_report',
-             'shell.genjson.output_json', 'shell.genxml.output_xml_report', 'utils.latex_error']
+             'shell.genjson.output_json', 'shell.genxml.output_xml_report', 'utils.latex_error',
+             'tex2txt.read_replacements', 'tex2txt.read_definitions', 'utils.replace_phrases']
     for q in funcs:
         if not model.has_func(q):
             continue
